@@ -210,19 +210,20 @@ def run_level(ctx, ss):
                     if kind == 'dangling' and nname in ('erdosrenyi', 'disk'): w['finding_key'] = f'{nname}-positional-edges'
                     ctx.violation(f'{nname} network under {dname}, step {ti}: {what}', w)
     # timed-edge lifetimes on a population without churn: n_edges[t] = per_step * min(t+1, k), k = max(1, ceil(dur/dt))
-    for dur, dt in [(0, 1.0), (1.0, 1.0), (2.5, 1.0), (1.0, 0.5), (1.5, 0.5), (3.0, 0.25)]:
-        sim = ss.Sim(n_agents=40, diseases=ss.SIS(beta=0.01), networks=ss.RandomNet(n_contacts=4, dur=dur), interventions=NetProbe(name='netprobe'),
-                     dur=5, dt=dt, rand_seed=1, verbose=0, use_aging=False)
+    for dur, dt, simdt in [(0, 1.0, 1.0), (1.0, 1.0, 1.0), (2.5, 1.0, 1.0), (1.0, 0.5, 0.5), (1.5, 0.5, 0.5), (3.0, 0.25, 0.25), (1.0, 0.25, 1.0), (1.5, 0.5, 0.125)]:
+        # the network (and the probe) may run on their own dt, different from the sim's
+        sim = ss.Sim(n_agents=40, diseases=ss.SIS(beta=0.01), networks=ss.RandomNet(n_contacts=4, dur=dur, dt=dt), interventions=NetProbe(name='netprobe', dt=dt),
+                     dur=5, dt=simdt, rand_seed=1, verbose=0, use_aging=False)
         sim.run()
         sizes = sim.interventions.netprobe.sizes['randomnet']
         k = max(1, math.ceil(dur / dt - 1e-9))
         per = 40 * 2
         # edges created at initialisation have already been through one end-of-step update when step 0 transmits
         want = [per * min(t + 1, k) + (per if t < k - 1 else 0) for t in range(len(sizes))]
-        ctx.count(('lifetime', dur, dt)); ctx.dist('timed-edge lifetime')
+        ctx.count(('lifetime', dur, dt, simdt)); ctx.dist('timed-edge lifetime')
         if sizes != want:
             t = next(i for i, (a, b) in enumerate(zip(sizes, want)) if a != b)
-            ctx.violation(f'RandomNet(dur={dur}) with dt={dt}: {sizes[t]} edges present at the transmission phase of step {t}; edges lasting {k} step(s) give {want[t]}',
+            ctx.violation(f'RandomNet(dur={dur}, dt={dt}) in a sim with dt={simdt}: {sizes[t]} edges present at the transmission phase of step {t}; edges lasting {k} step(s) give {want[t]}',
                           dict(dur=dur, dt=dt, sizes=sizes[:8], expected=want[:8]))
 
 
